@@ -54,9 +54,12 @@ def cases(tier, seed):
             for sl in ([(1, None, None), (None, -1, None), (None, None, 2), (-3, 3, None), (None, None, -1), (N - 1, 0, -2)]):
                 out.append(dict(base, mask={"kind": "slice", "start": sl[0], "stop": sl[1], "step": sl[2]}, threads=2))
             if dt in ("float64", "int64") or tier == "thorough":
-                for comp in compositions(N, maxparts):
+                comps = compositions(N, maxparts) + ([[1, 2, 1]] if tier == "quick" else [])
+                for comp in comps:
                     for mk in ({"kind": "none"}, {"kind": "bool_sym"}):
                         out.append(dict(base, mask=mk, threads=1, chunks=comp))
+                if tier == "quick":
+                    out.append(dict(base, mask={"kind": "none"}, threads=2, chunks=[2, 2]))
                     if tier == "thorough" and len(comp) == 2:
                         out.append(dict(base, mask={"kind": "none"}, threads=2, chunks=comp))
     if tier == "thorough":
